@@ -187,7 +187,6 @@ func has(xs []string, x string) bool {
 	return false
 }
 
-
 func fmtAnswers(m map[string]string) string {
 	var ks []string
 	for k := range m {
